@@ -5,6 +5,7 @@
      emd <tty:tid> <epoch_us> <offset_us> <authority d|f|r> <url> <name> <version> <format> <metadata>
          <origin|-> <visit|-> <snapshot ty:id|-> <release|-> <revision|-> <path|-> <directory|->
          -> ok <manifest hex> <sha1 hex> <normalised epoch_us> <normalised offset_us> | err ValueError
+     emdin <n|o> <wall-clock us> <tty:tid> <authority> ... (as emd, without the two date words) -> err ValueError
      pemd <manifest hex> -> ok <target text> <second> <authority word> <url> <name> <version> <format> <k:v,...|.> <metadata> <tty:tid | none> | none
      authwords -> ok <word>,<word>,<word> *)
 let cty_of = function "snp" -> CSnp | "rel" -> CRel | "rev" -> CRev | "dir" -> CDir | "cnt" -> CCnt | _ -> failwith "cty"
@@ -47,6 +48,19 @@ let () = serve (function
        | Ok a -> let man = emd_git_object a in
                  String.concat " " ["ok"; hex_of_bytes man; hex_of_bytes (sha1 man);
                                     decimal_of_z a.m_date.dt_us; decimal_of_z a.m_date.dt_off])
+  | ["emdin"; k; wall; tg; au; url; name; ver; fmt; md; origin; visit; snp; rel; rev; path; dir] ->
+      (* a discovery_date without UTC offset: k = n (tzinfo None) | o (tzinfo gives no offset); wall = the written fields *)
+      let m = { m_target = eswhid_of tg; m_date = { dt_us = Z0; dt_off = Z0 };
+                m_authority = { au_type = auth_of au; au_url = bytes_of_hex url };
+                m_fetcher = { fe_name = bytes_of_hex name; fe_version = bytes_of_hex ver };
+                m_format = bytes_of_hex fmt; m_metadata = bytes_of_hex md;
+                m_origin = opt_bytes_of_hex origin; m_visit = opt z_of_decimal visit;
+                m_snapshot = opt cswhid_of snp; m_release = opt cswhid_of rel; m_revision = opt cswhid_of rev;
+                m_path = opt_bytes_of_hex path; m_directory = opt cswhid_of dir } in
+      let d = if k = "n" then DNaive (z_of_decimal wall) else DOffsetless (z_of_decimal wall) in
+      (match mk_emd_in m d with
+       | Err ValueError -> "err ValueError"
+       | Ok a -> "ok " ^ hex_of_bytes (emd_git_object a))
   | ["pemd"; m] ->
       (match parse_emd (bytes_of_hex m) with
        | Some f ->
